@@ -181,9 +181,24 @@ theorem C05_the_await_suspends_only_when_every_queue_is_empty (w w' : World) (i 
     (w.bus b).queue = [] := by
   obtain ⟨hg, _⟩ := step_some hs
   simp [guard, checks, Checks.ok] at hg
-  have h := hg.2.2 b hb
+  have h := hg.2.2.1 b hb
   rw [hreg] at h
   simpa using h
+
+end Thm
+end Bubus
+
+namespace Bubus
+namespace Thm
+
+/-- **C04 / C03** ("the await never deadlocks", "awaiting always returns"): the polling loop of an in-handler `await` is bounded -
+    it suspends at most `maxPoll` (1000) times (every pass over the buses ends in at most one suspension); after that many passes
+    the await gives up and returns. -/
+theorem C04_the_polling_loop_of_an_await_is_bounded (w w' : World) (i : IId)
+    (hs : step w (.pollYield i) = some w') : (w.inst i).yields < w.cfg.maxPoll := by
+  obtain ⟨hg, _⟩ := step_some hs
+  simp [guard, checks, Checks.ok] at hg
+  exact hg.2.2.2
 
 end Thm
 end Bubus
